@@ -86,6 +86,12 @@ def families(tier):
         main = [('disp', 'A', 'P', 'ff'), ('disp', 'A', 'X', 'ff'), ('disp', 'A', 'Y', 'ff')]
         add('c01.registration', f'{kind}-{"+".join(pats).replace("*", "star").replace(":", "")}-d{int(dup)}', scn({'A': {}}, hs, main), kind=kind)
 
+    # --- family 2b: a handler (any kind) ends with an exception - including CancelledError nobody asked for - and later handlers / events still get theirs
+    for kind, exc in itertools.product(['async', 'sync', 'amethod', 'method', 'astatic'], ['ValueError', 'CancelledError', 'TimeoutError']):
+        hs = [dict(bus='A', pat='P', name='h1', prog=[('raise', exc)], kind=kind), dict(bus='A', pat='s:P', name='h2', prog=[('ret', 2)], kind='sync'),
+              dict(bus='A', pat='*', name='h3', prog=[('pause',), ('ret', 3)]), dict(bus='A', pat='P', name='h4', prog=[('disp', 'A', 'C', 'await')]), dict(bus='A', pat='C', name='hc', prog=[('ret', 1)])]
+        main = [('disp', 'A', 'P', 'ff'), ('disp', 'A', 'X', 'ff'), ('pause',), ('disp', 'A', 'P2', 'ff')]
+        add('c01.registration', f'raises-{kind}-{exc}', scn({'A': {}}, hs, main), kind=kind)
     # --- family 3: re-dispatch of the same object to the same bus: pending / in flight / completed -----------
     for when, pshape, nb, fwd in itertools.product(['pending', 'inflight', 'completed', 'actor'], ['pause', 'c_aw', 'c_ff_pause', 'redisp_self'], (1, 2), (False, True)):
         if nb == 1 and fwd:
